@@ -69,6 +69,15 @@ class Canon(ast.NodeTransformer):
                 ast.copy_location(tup, vals[0])
                 n = ast.Compare(left=vals[0].left, ops=[ast.In() if want is ast.Eq else ast.NotIn()], comparators=[tup])
                 return ast.copy_location(n, node)
+        # isinstance(x, A) or isinstance(x, B)  ->  isinstance(x, (A, B))
+        if isinstance(node.op, ast.Or) and len(vals) >= 2 and all(isinstance(v, ast.Call) and isinstance(v.func, ast.Name) and v.func.id == 'isinstance' and len(v.args) == 2
+                                                                  and not v.keywords for v in vals) and len({_src(v.args[0]) for v in vals}) == 1:
+            classes: List[ast.AST] = []
+            for v in vals:
+                classes.extend(v.args[1].elts if isinstance(v.args[1], (ast.Tuple, ast.List)) else [v.args[1]])
+            tup = ast.copy_location(ast.Tuple(elts=classes, ctx=ast.Load()), vals[0])
+            n = ast.Call(func=vals[0].func, args=[vals[0].args[0], tup], keywords=[])
+            return ast.copy_location(n, node)
         return node
 
     def visit_If(self, node: ast.If):
@@ -1258,7 +1267,69 @@ def propagate_module_strings(tree: ast.AST) -> ast.AST:
     return tree
 
 
+class _MatchToIf(ast.NodeTransformer):
+    """`match SUBJECT:` with class patterns `C()` / `C(attr=V)`, value patterns (literals, dotted constants), or-patterns and a final wildcard, on a side-effect
+    free subject  ->  the equivalent if/elif/else chain.  Anything else (captures, sequences, mappings, guards with captures) is left as it is."""
+    def visit_Match(self, node):
+        self.generic_visit(node)
+        subj = node.subject
+        if not _pure_cell(subj) or isinstance(subj, (ast.BoolOp, ast.Compare, ast.UnaryOp, ast.Lambda)):
+            return node
+        import copy
+
+        def test_of(pat) -> Optional[ast.AST]:
+            if isinstance(pat, ast.MatchValue):
+                return ast.Compare(left=copy.deepcopy(subj), ops=[ast.Eq()], comparators=[pat.value])
+            if isinstance(pat, ast.MatchSingleton):
+                return ast.Compare(left=copy.deepcopy(subj), ops=[ast.Is()], comparators=[ast.Constant(value=pat.value)])
+            if isinstance(pat, ast.MatchClass) and not pat.patterns:
+                t = ast.Call(func=ast.Name(id='isinstance', ctx=ast.Load()), args=[copy.deepcopy(subj), pat.cls], keywords=[])
+                parts = [t]
+                for a, kp in zip(pat.kwd_attrs, pat.kwd_patterns):
+                    if isinstance(kp, ast.MatchValue):
+                        parts.append(ast.Compare(left=ast.Attribute(value=copy.deepcopy(subj), attr=a, ctx=ast.Load()), ops=[ast.Eq()], comparators=[kp.value]))
+                    elif isinstance(kp, ast.MatchSingleton):
+                        parts.append(ast.Compare(left=ast.Attribute(value=copy.deepcopy(subj), attr=a, ctx=ast.Load()), ops=[ast.Is()], comparators=[ast.Constant(value=kp.value)]))
+                    else:
+                        return None
+                return parts[0] if len(parts) == 1 else ast.BoolOp(op=ast.And(), values=parts)
+            if isinstance(pat, ast.MatchOr):
+                ts = [test_of(x) for x in pat.patterns]
+                if any(t is None for t in ts):
+                    return None
+                return ast.BoolOp(op=ast.Or(), values=ts)
+            return None
+        chain: Optional[List[ast.stmt]] = None
+        cases = list(node.cases)
+        tail: List[ast.stmt] = []
+        if cases and isinstance(cases[-1].pattern, ast.MatchAs) and cases[-1].pattern.pattern is None and cases[-1].pattern.name is None and cases[-1].guard is None:
+            tail = cases[-1].body
+            cases = cases[:-1]
+        tests = []
+        for c in cases:
+            t = test_of(c.pattern)
+            if t is None:
+                return node
+            if c.guard is not None:
+                t = ast.BoolOp(op=ast.And(), values=[t, c.guard])
+            tests.append((t, c.body))
+        if not tests:
+            return node
+        orelse = tail
+        for t, body in reversed(tests):
+            n_ = ast.If(test=t, body=body, orelse=orelse)
+            orelse = [n_]
+        out = orelse[0]
+        for x in ast.walk(out):
+            if not hasattr(x, 'lineno'):
+                ast.copy_location(x, node)
+        return ast.copy_location(out, node)
+
+
 def canonicalise(tree: ast.AST, computed_attrs=frozenset()) -> ast.AST:
+    if any(isinstance(x, ast.Match) for x in ast.walk(tree)):
+        tree = _MatchToIf().visit(tree)
+        ast.fix_missing_locations(tree)
     tree = Canon().visit(tree)
     ast.fix_missing_locations(tree)
     tree = alias_paths(tree, computed_attrs)
